@@ -19,7 +19,7 @@ ASSUMPTIONS = ['mpmath special functions; numpy FFT for the spectral model',
                'm ranges of 2.11/2.12) are read from what the code chose and '
                'checked against the standard\'s admissibility constraints',
                'cusum formula compared for n >= 100 (the standard\'s minimum); '
-               'range clause for every n', 'Universal only for L = 6 (quick) '
+               'range clause for every n', 'Universal for L = 6, 7 (quick) '
                'and L = 6, 7 (thorough)',
                'random excursions: J read literally from 2.14.4 (the appended '
                'zero of S\' always counts)']
@@ -40,8 +40,12 @@ def plan(tier, seed):
                   'parts': 4 if q else 8, 'weight': 4})
   specs.append({'shard': 'big-0', 'sizes': [38912, 65536, 131072], 'weight': 6})
   specs.append({'shard': 'big-1', 'sizes': [387840, 750000], 'weight': 9})
+  # Universal's block-size thresholds (L = 7 from 904960 bits, L = 8 from
+  # 2068480 bits): F22 was invisible to a quick tier that stopped at L = 6
+  specs.append({'shard': 'big-2', 'sizes': [904960] if q else
+                [904960, 1048576], 'weight': 12})
   if not q:
-    specs.append({'shard': 'big-2', 'sizes': [904960, 1048576], 'weight': 12})
+    specs.append({'shard': 'big-3', 'sizes': [2068480], 'weight': 20})
   specs.append({'shard': 'walk', 'n': 12 if q else 60, 'weight': 4})
   specs.append({'shard': 'meta', 'n': 40 if q else 300, 'weight': 3})
   specs.append({'shard': 'tables'})
@@ -514,6 +518,12 @@ def run_mid(ctx, spec):
       if n >= 2000:
         L = rng.choice([2, 3, 4])
         mon_universal_impl(mon, ns, seq, n, e, data, L, 10 * 2 ** L)
+        # short initialisation segments: patterns whose first occurrence lies
+        # in the test segment (the table entry 'never seen' of 2.9.4 step 2)
+        L = rng.choice([3, 4, 5, 6])
+        mon_universal_impl(mon, ns, seq, n, e, data, L,
+                           rng.choice([1, 2, 2 ** L // 2, 2 ** L]))
+        mon.ctx.count('universal_short_init_segment')
       M = rng.choice([10, 11, 16, 25, 31])
       if M * 200 <= n:
         mon_lc(mon, ns, seq, n, e, data, M)
@@ -588,6 +598,15 @@ def run_big(ctx, spec):
       mon_longestruns(mon, ns, seq, nn, e, data)
       mon_rank(mon, ns, seq, nn, e, data)
       mon_universal(mon, ns, seq, nn, e, data)
+      if d == 0 and nn >= 387840:
+        # a constant initialisation segment followed by random blocks: 63 (or
+        # 2^L - 1) patterns occur for the first time in the test segment
+        L = 6 if nn < 904960 else 7 if nn < 2068480 else 8
+        cut = 10 * 2 ** L * L + rng.randint(0, 3 * L)
+        seq2 = seq >> cut << cut
+        mon_universal(mon, ns, seq2, nn, nist.bits_of(seq2, nn),
+                      {'n': nn, 'kind': 'zero-prefix-%d' % cut})
+        mon.ctx.count('universal_constant_init_segment')
       if d == 0:
         mon_frequency(mon, ns, seq, nn, e, data)
         mon_runs(mon, ns, seq, nn, e, data)
@@ -857,7 +876,8 @@ def finalize(agg, tier):
       'OverlappingTemplateMatching', 'Universal', 'UniversalImpl',
       'LinearComplexity', 'Serial', 'ApproximateEntropy', 'CumulativeSums',
       'RandomExcursions', 'RandomExcursionsVariant')]
-  need += ['range_checks', 'insufficient_boundary_checks', 'table_entries',
+  need += ['universal_short_init_segment', 'universal_constant_init_segment',
+           'range_checks', 'insufficient_boundary_checks', 'table_entries',
            'walks_with_500_cycles', 'boundary_walks_J500',
            'boundary_walks_J499', 'metamorphic:complement',
            'metamorphic:reverse', 'metamorphic:rotate']
